@@ -3,6 +3,7 @@ package main
 import (
 	"fmt"
 	"math/rand"
+	"os"
 	"reflect"
 	"sort"
 	"strings"
@@ -26,6 +27,9 @@ type c13node struct {
 	bind inputrc.Bind     // bind: action and macro flag
 	name string           // set
 	val  interface{}      // set
+	// $include of a generated file (kind "include"): the file holds variable assignments and blocks only
+	file string
+	sub  []*c13node
 	// block
 	test      string
 	thn, els  []*c13node
@@ -47,9 +51,10 @@ var c13vars = []struct {
 	{"set bell-style visible", "bell-style", "visible"}, {"set completion-query-items 42", "completion-query-items", 42},
 	{"set blink-matching-paren on", "blink-matching-paren", true}, {"set blink-matching-paren Off", "blink-matching-paren", false},
 	{"set history-size 5", "history-size", 5}, {"set comment-begin x", "comment-begin", "x"}, {"set show-all-if-ambiguous 1", "show-all-if-ambiguous", 1},
+	{"set bell-style none", "bell-style", "none"}, {"set isearch-terminators abca", "isearch-terminators", "abca"}, {"set comment-begin \"# \"", "comment-begin", "\"# \""},
 	{"SET", "", nil},
 }
-var c13kms = []string{"emacs", "vi-insert", "vi-command", "emacs-ctlx", "vi"}
+var c13kms = []string{"emacs", "vi-insert", "vi-command", "emacs-ctlx", "vi", "emacs-meta", "emacs-standard", "vi-move"}
 var c13tests = []struct {
 	text string
 	eval func(mode, term, app string) bool
@@ -57,6 +62,37 @@ var c13tests = []struct {
 	{"mode=emacs", func(m, t, a string) bool { return m == "emacs" }}, {"mode=vi", func(m, t, a string) bool { return m == "vi" }},
 	{"term=xterm", func(m, t, a string) bool { return t == "xterm" }}, {"term=rxvt", func(m, t, a string) bool { return t == "rxvt" }},
 	{"Bash", func(m, t, a string) bool { return a == "bash" }}, {"other", func(m, t, a string) bool { return a == "other" }},
+}
+
+// noInc is set while an included file is being generated: no nested includes
+var noIncFlag bool
+var noInc = &noIncFlag
+
+// c13genInc generates the content of an included file: blocks and variable assignments
+func c13genInc(r *rand.Rand, depth int, st *[2]int, _ *bool) *c13node {
+	*noInc = true
+	defer func() { *noInc = false }()
+	for {
+		n := c13gen(r, depth, st)
+		if okInc(n) {
+			return n
+		}
+	}
+}
+
+func okInc(n *c13node) bool {
+	if n.kind == "set" {
+		return true
+	}
+	if n.kind != "" {
+		return false
+	}
+	for _, c := range append(append([]*c13node{}, n.thn...), n.els...) {
+		if !okInc(c) {
+			return false
+		}
+	}
+	return true
 }
 
 func c13gen(r *rand.Rand, depth int, st *[2]int) *c13node {
@@ -73,6 +109,17 @@ func c13gen(r *rand.Rand, depth int, st *[2]int) *c13node {
 			for k := r.Intn(3); k > 0; k-- {
 				n.els = append(n.els, c13gen(r, depth+1, st))
 			}
+		}
+		return n
+	}
+	if depth < 4 && !*noInc && r.Intn(9) == 0 {
+		// an included file with blocks of its own (ending active or inactive); what follows the $include
+		// in the including file must be governed by the including file's blocks alone
+		n := &c13node{kind: "include", file: fmt.Sprintf("inc%d", st[0]*7+r.Intn(1000))}
+		st[0]++
+		ni := true
+		for k := 1 + r.Intn(3); k > 0; k-- {
+			n.sub = append(n.sub, c13genInc(r, depth+1, st, &ni))
 		}
 		return n
 	}
@@ -93,8 +140,17 @@ func c13gen(r *rand.Rand, depth int, st *[2]int) *c13node {
 	}
 }
 
+var c13files = map[string]string{}
+
 func c13render(ns []*c13node, out *[]string, indent string) {
 	for _, n := range ns {
+		if n.kind == "include" {
+			*out = append(*out, indent+"$include "+n.file)
+			var sub []string
+			c13render(n.sub, &sub, "")
+			c13files[n.file] = strings.Join(sub, "\n") + "\n"
+			continue
+		}
 		if n.kind != "" {
 			*out = append(*out, indent+n.text)
 			continue
@@ -135,6 +191,11 @@ func c13spec(ns []*c13node, on bool, mode, term, app string, c *c13cfg, nestedIn
 			if on {
 				c.km = n.km
 			}
+		case "include":
+			// the included file is read iff the $include is active; its own blocks are evaluated from scratch
+			if on {
+				c13spec(n.sub, true, mode, term, app, c, nestedInInactive)
+			}
 		default:
 			if !on {
 				*nestedInInactive = true
@@ -160,6 +221,7 @@ func c13(r *rand.Rand, n int) {
 			prog = append(prog, c13gen(r, 0, &st))
 		}
 		var lines []string
+		c13files = map[string]string{}
 		c13render(prog, &lines, "")
 		if r.Intn(4) == 0 { // comments and blank lines between directives
 			var l2 []string
@@ -181,8 +243,23 @@ func c13(r *rand.Rand, n int) {
 		if nested {
 			class += "/block-in-inactive-block"
 		}
-		rep.Classes[class]++
+		show := text
 		got := inputrc.NewConfig()
+		files := c13files
+		got.ReadFileFunc = func(name string) ([]byte, error) {
+			if s, ok := files[name]; ok {
+				return []byte(s), nil
+			}
+			return nil, os.ErrNotExist
+		}
+		if len(files) > 0 {
+			class += "/include"
+			show += "\n--- included files ---\n"
+			for n, t := range files {
+				show += "[" + n + "]\n" + t
+			}
+		}
+		rep.Classes[class]++
 		var perr error
 		func() {
 			defer func() {
@@ -197,7 +274,7 @@ func c13(r *rand.Rand, n int) {
 			where = "block-in-inactive-block"
 		}
 		if perr != nil {
-			add("parse-error/"+where, perr.Error(), text)
+			add("parse-error/"+where, perr.Error(), show)
 			continue
 		}
 		// drop keymaps the parser created empty
@@ -209,7 +286,7 @@ func c13(r *rand.Rand, n int) {
 		if !reflect.DeepEqual(got.Binds, want.binds) || !reflect.DeepEqual(got.Vars, want.vars) {
 			detail := c13diff(got, want) + fmt.Sprintf("   [mode=%s term=%s app=%s]", mode, term, app)
 			kind := c13kind(got, want)
-			add(kind+"/"+where, detail, text)
+			add(kind+"/"+where, detail, show)
 		} else {
 			rep.Decided["agrees/"+where]++
 		}
